@@ -9,7 +9,9 @@
 (*     than the destination, of the other signedness), or                  *)
 (*   - with another value (0, n-1, n+1, 2n, n + 2^8, n + 2^16, n + 2^32,   *)
 (*     2^16, 2^32, 2^63, 2^64 - 1: counts that overflow a narrow size      *)
-(*     member or an allocation), in its minimal class,                     *)
+(*     member or an allocation), in its minimal class, or                  *)
+(*   - (count field of a map) with its pairs in the opposite order, a      *)
+(*     valid encoding the library's own writers never emit,                *)
 (* while everything else is encoded faithfully.  MC checks that EncM       *)
 (* without a mutation is EncR (EncMFaithful).                               *)
 (***************************************************************************)
@@ -104,7 +106,10 @@ EncM(S, v, ctx, k, f) ==
          LET t == EncMMembers(S.m, v.m, ctx, k, f + 1, 1) IN
          MR(<<IF S.k = "struct" THEN P_STU ELSE P_ARY>> \o NatField(Len(S.m), mut, f) \o t.b, t.k, t.f, t.push, t.err)
     [] S.k \in {"map", "umap"} ->
-         LET t == EncMMap(S, v.kv, ctx, k, f + 1, 1) IN
+         \* "reverse" on the count field of a map: the same pairs in the opposite order - a *valid* encoding that the
+         \* library's own std::map writer never produces (the format does not order map entries)
+         LET kvs == IF mut.f = f /\ mut.how = "reverse" THEN [j \in 1..Len(v.kv) |-> v.kv[Len(v.kv) + 1 - j]] ELSE v.kv
+             t == EncMMap(S, kvs, ctx, k, f + 1, 1) IN
          MR(<<P_MAP>> \o NatField(Len(v.kv), mut, f) \o t.b, t.k, t.f, t.push, t.err)
     [] S.k \in {"ref", "wrap"} -> EncM(S.e, v, ctx, k, f)
     [] S.k = "opt" -> IF Len(v.o) = 0 THEN MR(<<P_NIL>>, k, f, <<>>, 0) ELSE EncM(S.e, v.o[1], ctx, k, f)
@@ -133,5 +138,7 @@ FieldMutants(S, v, refs) ==
     {[b |-> EncM(S, v, MCtx(refs, [f |-> fi, how |-> "class-u", arg |-> w]), 1, 1).b, label |-> <<"class-u", fi, w>>] : w \in {1, 2, 4, 8}}
     \cup {[b |-> EncM(S, v, MCtx(refs, [f |-> fi, how |-> "class-s", arg |-> w]), 1, 1).b, label |-> <<"class-s", fi, w>>] : w \in {1, 2, 4, 8}}
     \cup {[b |-> EncM(S, v, MCtx(refs, [f |-> fi, how |-> "value", arg |-> m]), 1, 1).b, label |-> <<"value", fi, m>>] : m \in ValueMuts}
+    \cup (LET r == EncM(S, v, MCtx(refs, [f |-> fi, how |-> "reverse", arg |-> 0]), 1, 1).b IN
+          IF r # EncM(S, v, MCtx(refs, NoMut), 1, 1).b THEN {[b |-> r, label |-> <<"reverse", fi, 0>>]} ELSE {})
     : fi \in 1..n}
 =============================================================================
